@@ -1,6 +1,7 @@
 import OdxVerif.Proofs.AtomicRT
 import OdxVerif.Proofs.BytesRT
 import OdxVerif.Proofs.TextRT16
+import OdxVerif.Proofs.BcdRT
 import OdxVerif.Model.Decode
 /-! First composite proof tier ("flat"): explicitly or implicitly positioned VALUE parameters over standard-length
     types — `A_INT32` in its four encodings, `A_UINT32` unencoded, `A_FLOAT64`, `A_BYTEFIELD` (whole bytes),
@@ -24,6 +25,7 @@ inductive Kind where
   | float32    -- A_FLOAT32: the value is the binary64 pattern of a number that is exactly a normal binary32 number, ±0 or ±inf
   | utf8       -- A_UTF8STRING (UTF-8, the default encoding): code points whose encoding has BIT-LENGTH / 8 bytes
   | unicode2   -- A_UNICODE2STRING (UCS-2 = UTF-16, the default encoding; high-low byte order = UTF-16BE), BIT-LENGTH / 8 bytes
+  | bcd        -- A_UINT32 with BASE-TYPE-ENCODING BCD-P (a decimal digit per nibble) or BCD-UP (per byte)
 deriving Repr, DecidableEq, Inhabited
 
 /-- an explicitly or implicitly positioned VALUE parameter with a standard-length type and the identical compu
@@ -47,6 +49,10 @@ def Obj.bt (o : Obj) : BaseType :=
   | .float32 => .float32
   | .utf8 => .utf8
   | .unicode2 => .unicode2
+  | .bcd => .uint32
+
+/-- bits per decimal digit of a BCD object -/
+def Obj.bcdShift (o : Obj) : Nat := if o.enc = some .bcdp then 4 else 8
 
 def Obj.toParam (o : Obj) : Param :=
   .mk o.name o.bytePos o.bitPos (.value (.simple (.std o.bt o.enc o.hl o.bl none false) o.bt .identical) none)
@@ -61,6 +67,7 @@ def Obj.encOk (o : Obj) : Prop :=
   | .float32 => o.enc = none ∨ o.enc = some .none_
   | .utf8 => o.enc = none ∨ o.enc = some .utf8
   | .unicode2 => o.enc = none ∨ o.enc = some .ucs2
+  | .bcd => o.enc = some .bcdp ∨ o.enc = some .bcdup
 
 /-- the sizes the kind admits: integers up to 64 bits (the limit of the bitstruct module), floats exactly 64,
     byte fields whole bytes (the byte order flag is immaterial for them: `bytefield_hl_irrelevant`; the objects
@@ -75,6 +82,7 @@ def Obj.sizeOk (o : Obj) : Prop :=
   | .float32 => o.bl = 32
   | .utf8 => o.bl % 8 = 0 ∧ o.hl = true
   | .unicode2 => o.bl % 8 = 0 ∧ o.hl = true
+  | .bcd => o.bl ≤ 64
 
 def Obj.ok (o : Obj) : Prop := o.encOk ∧ 1 ≤ o.bl ∧ o.sizeOk
 def Obj.isInt (o : Obj) : Prop := o.kind = .int32 ∨ o.kind = .uint32
@@ -93,6 +101,7 @@ def Obj.raw (o : Obj) (v : IVal) : Nat :=
   | .float32, .flt b => (Text.f64to32? b).getD 0
   | .utf8, .str cps => ofBytesBE ((Text.encode .utf8 cps).getD [])
   | .unicode2, .str cps => ofBytesBE ((Text.encode .utf16be cps).getD [])
+  | .bcd, .int i => bcdEnc o.bcdShift i.toNat i.toNat
   | _, _ => 0
 
 /-- the internal value of a `bl`-bit pattern -/
@@ -106,6 +115,7 @@ def Obj.ofRaw (o : Obj) (r : Nat) : IVal :=
   | .float32 => .flt ((Text.f32to64? r).getD 0)
   | .utf8 => .str ((Text.decode .utf8 (toBytesBE ((o.bl + 7) / 8) (r * 2 ^ ((8 - o.bl % 8) % 8)))).getD [])
   | .unicode2 => .str ((Text.decode .utf16be (toBytesBE ((o.bl + 7) / 8) (r * 2 ^ ((8 - o.bl % 8) % 8)))).getD [])
+  | .bcd => .int (bcdDec o.bcdShift r r)
 
 /-- the internal values the object can represent (float32: binary64 patterns of numbers that are exactly binary32
     normal numbers, zeros or infinities — the part of `float → binary32` the model follows; UTF-8: code point lists
@@ -120,6 +130,7 @@ def Obj.inRange (o : Obj) (v : IVal) : Prop :=
   | .float32, .flt b => b < 2 ^ 64 ∧ (Text.f64to32? b).isSome = true
   | .utf8, .str cps => ∃ bs, Text.encode .utf8 cps = some bs ∧ 8 * bs.length = o.bl
   | .unicode2, .str cps => ∃ bs, Text.encode .utf16be cps = some bs ∧ 8 * bs.length = o.bl
+  | .bcd, .int i => 0 ≤ i ∧ bcdEnc o.bcdShift i.toNat i.toNat < 2 ^ o.bl
   | _, _ => False
 
 /-- Boolean version of `inRange` -/
@@ -137,6 +148,7 @@ def Obj.accepts (o : Obj) (v : IVal) : Bool :=
   | .unicode2, .str cps => match Text.encode .utf16be cps with
     | some bs => decide (8 * bs.length = o.bl)
     | none => false
+  | .bcd, .int i => decide (0 ≤ i) && decide (bcdEnc o.bcdShift i.toNat i.toNat < 2 ^ o.bl)
   | _, _ => false
 
 /-- the bit patterns the (strict) decoder turns into a value: all of them for the integer, binary64, byte-field and
@@ -157,6 +169,7 @@ def Obj.canon (o : Obj) (r : Nat) : Prop :=
   | .float32 => r < 2 ^ o.bl ∧ (Text.f32to64? r).isSome = true
   | .utf8 => r < 2 ^ o.bl ∧ (Text.decode .utf8 (toBytesBE ((o.bl + 7) / 8) (r * 2 ^ ((8 - o.bl % 8) % 8)))).isSome = true
   | .unicode2 => r < 2 ^ o.bl ∧ (Text.decode .utf16be (toBytesBE ((o.bl + 7) / 8) (r * 2 ^ ((8 - o.bl % 8) % 8)))).isSome = true
+  | .bcd => r < 2 ^ o.bl ∧ bcdEnc o.bcdShift (bcdDec o.bcdShift r r) (bcdDec o.bcdShift r r) = r     -- every group is a decimal digit
   | _ => r < 2 ^ o.bl
 
 theorem Obj.accepts_iff (o : Obj) (ho : o.ok) (v : IVal) : o.accepts v = true ↔ o.inRange v := by
@@ -227,6 +240,12 @@ theorem Obj.raw_spec (o : Obj) (ho : o.ok) (v : IVal) (hr : o.inRange v) :
     have e1 : (o.bl + 7) / 8 = bs.length := by omega
     have e2 : (8 - o.bl % 8) % 8 = 0 := by omega
     rw [e1, e2, Nat.pow_zero, Nat.mul_one, toBytesBE_ofBytesBE bs hall, hdec, Option.getD_some]
+  · rename_i i
+    have hs : o.bcdShift = 4 ∨ o.bcdShift = 8 := by unfold Obj.bcdShift; split <;> simp
+    refine ⟨hr.2, ?_⟩
+    rw [bcd_roundtrip _ hs]
+    congr 1
+    omega
 
 theorem Obj.canon_lt (o : Obj) (r : Nat) (hc : o.canon r) : r < 2 ^ o.bl := by
   unfold Obj.canon at hc
@@ -288,6 +307,8 @@ theorem Obj.canon_spec (o : Obj) (ho : o.ok) (r : Nat) (hc : o.canon r) :
     rw [pow256]
     have : 8 * ((o.bl + 7) / 8) = o.bl := by omega
     rw [this]; exact hlt
+  · simp only [Int.toNat_natCast]
+    exact ⟨⟨Int.natCast_nonneg _, by rw [hc.2]; exact hc.1⟩, hc.2⟩
 
 /-- the representation of a value decodes -/
 theorem Obj.raw_decodes (o : Obj) (ho : o.ok) (v : IVal) (hr : o.inRange v) : o.decodes (o.raw v) := by
@@ -371,6 +392,20 @@ theorem rawOfUInt32_ok (enc : Option Enc) (he : enc = none ∨ enc = some .none_
   have hneg : ¬ (i < 0) := by omega
   have hnat : i.natAbs = i.toNat := by omega
   rcases he with rfl | rfl <;>
+    simp [rawOfUInt32, bind, pure, run_bind, run_ite, run_pure, hneg, hbit, hnat]
+
+/-- raw representation of an `A_UINT32` value with a BCD encoding whose BCD form fits the bit length -/
+theorem rawOfUInt32_bcd_ok (enc : Option Enc) (he : enc = some .bcdp ∨ enc = some .bcdup) (bl : Nat) (i : Int) (h0 : 0 ≤ i)
+    (h1 : bcdEnc (if enc = some .bcdp then 4 else 8) i.toNat i.toNat < 2 ^ bl) (s : EncState) :
+    rawOfUInt32 enc bl i s true = .ok (bcdEnc (if enc = some .bcdp then 4 else 8) i.toNat i.toNat, s) := by
+  have hneg : ¬ (i < 0) := by omega
+  have hnat : i.natAbs = i.toNat := by omega
+  rcases he with rfl | rfl
+  · simp only [if_true] at h1 ⊢
+    have hbit : ¬ (bl < bitLength (bcdEnc 4 i.toNat i.toNat)) := Nat.not_lt.mpr ((bitLength_le_iff _ _).mpr h1)
+    simp [rawOfUInt32, bind, pure, run_bind, run_ite, run_pure, hneg, hbit, hnat]
+  · simp only [Option.some.injEq, reduceCtorEq, if_false] at h1 ⊢
+    have hbit : ¬ (bl < bitLength (bcdEnc 8 i.toNat i.toNat)) := Nat.not_lt.mpr ((bitLength_le_iff _ _).mpr h1)
     simp [rawOfUInt32, bind, pure, run_bind, run_ite, run_pure, hneg, hbit, hnat]
 
 theorem encodeParam_obj (o : Obj) (ho : o.ok) (v : IVal) (hr : o.inRange v) (fuel : Nat) (s : EncState) :
@@ -472,6 +507,15 @@ theorem encodeParam_obj (o : Obj) (ho : o.ok) (v : IVal) (hr : o.inRange v) (fue
         BaseType.isNumeric, odxassert, he, hfit1, hfit2, hsub, hb0, hm8, hge, hmask, hhl]
       cases hb : o.bytePos <;>
         simp [encStep, Obj.raw, hkind, Obj.pos, Obj.k, Obj.bp, Obj.mask, ord, toBytesBE_length, hhl, hb, henc]
+  · rename_i i
+    have h64 : ¬ (64 < o.bl) := by omega
+    have hraw := rawOfUInt32_bcd_ok o.enc hk o.bl i hr.1 hr.2
+    unfold Obj.bcdShift at hge
+    simp [Obj.toParam, Obj.bt, hkind, encodeParam, encodeDop, encodeDct, typeAdmits, emplaceAtomic, emplaceBytes, bind, pure,
+      run_ite, run_bind, run_pure, run_getS, run_setS, run_modifyS, run_raise, BaseType.isNumeric,
+      hraw, hb0, hge, hmask, h64]
+    cases hh : o.hl <;> cases hb : o.bytePos <;>
+      simp [encStep, Obj.raw, Obj.bcdShift, hkind, Obj.pos, Obj.k, Obj.bp, Obj.mask, ord, toBytesBE_length, hh, hb]
 
 /-- the decoder's effect for one object -/
 def decStep (o : Obj) (d : DecState) : IVal × DecState :=
@@ -574,6 +618,15 @@ theorem decodeParam_obj (o : Obj) (ho : o.ok) (fuel : Nat) (d : DecState)
         simp [Obj.toParam, Obj.bt, Obj.ofRaw, hkind, decodeParam, decodeDop, decodeDct, extractAtomic, extractCore, convertRaw,
           stringCodec, bind, pure, run_bind, run_pure, run_getS, run_modifyS, run_ite, run_raise, BaseType.isNumeric, odxassert, hb0, hnl,
           he, hb, hm8, hhl, decStep, Obj.pos, Obj.k, Obj.bp, hcps]
+  · have h64 : ¬ (64 < o.bl) := by omega
+    cases hb : o.bytePos <;> simp only [hb] at hlen
+    all_goals
+      have hnl : ¬ (d.msg.length < _ + (o.bl + o.bitPos.getD 0 + 7) / 8) := Nat.not_lt.mpr hlen
+      rcases hk with he | he
+      all_goals
+        simp [Obj.toParam, Obj.bt, Obj.ofRaw, Obj.bcdShift, hkind, decodeParam, decodeDop, decodeDct, extractAtomic, extractCore, convertRaw,
+          uint32OfRaw, bind, pure, run_bind, run_pure, run_getS, run_modifyS, run_ite, run_raise, BaseType.isNumeric, hb0, hnl,
+          he, hb, h64, decStep, Obj.pos, Obj.k, Obj.bp]
 
 /-- the byte-order flag of a byte field is immaterial (only numeric objects are byte-swapped) -/
 theorem bytefield_hl_irrelevant (enc : Option Enc) (hl : Bool) (bl : Nat) (m : Option Nat) (c : Bool) (v : IVal) :
@@ -694,6 +747,16 @@ theorem encodeParam_const_obj (o : Obj) (ho : o.ok) (v : IVal) (hr : o.inRange v
         hfit1, hfit2, hsub, hb0, hm8, hge, hmask, hhl]
       cases hb : o.bytePos <;>
         simp [encStep, Obj.raw, hkind, Obj.pos, Obj.k, Obj.bp, Obj.mask, ord, toBytesBE_length, hhl, hb, henc]
+  · rename_i i
+    have h64 : ¬ (64 < o.bl) := by omega
+    have hraw := rawOfUInt32_bcd_ok o.enc hk o.bl i hr.1 hr.2
+    unfold Obj.bcdShift at hge
+    rcases hpv with rfl | rfl <;>
+    · simp [Obj.toConstParam, Obj.bt, hkind, encodeParam, encodeDct, emplaceAtomic, emplaceBytes, bind, pure,
+        run_ite, run_bind, run_pure, run_getS, run_setS, run_modifyS, run_raise, BaseType.isNumeric,
+        hraw, hb0, hge, hmask, h64]
+      cases hh : o.hl <;> cases hb : o.bytePos <;>
+        simp [encStep, Obj.raw, Obj.bcdShift, hkind, Obj.pos, Obj.k, Obj.bp, Obj.mask, ord, toBytesBE_length, hh, hb]
 
 /-- decoding a CODED-CONST parameter returns what is on the wire (a mismatch with the constant is only warned about) -/
 theorem decodeParam_const_obj (o : Obj) (ho : o.ok) (v : IVal) (fuel : Nat) (d : DecState)
@@ -786,5 +849,14 @@ theorem decodeParam_const_obj (o : Obj) (ho : o.ok) (v : IVal) (fuel : Nat) (d :
         simp [Obj.toConstParam, Obj.bt, Obj.ofRaw, hkind, decodeParam, decodeDct, extractAtomic, extractCore, convertRaw,
           stringCodec, bind, pure, run_bind, run_pure, run_getS, run_modifyS, run_ite, run_raise, BaseType.isNumeric, odxassert, hb0, hnl,
           he, hb, hm8, hhl, decStep, Obj.pos, Obj.k, Obj.bp, hcps]
+  · have h64 : ¬ (64 < o.bl) := by omega
+    cases hb : o.bytePos <;> simp only [hb] at hlen
+    all_goals
+      have hnl : ¬ (d.msg.length < _ + (o.bl + o.bitPos.getD 0 + 7) / 8) := Nat.not_lt.mpr hlen
+      rcases hk with he | he
+      all_goals
+        simp [Obj.toConstParam, Obj.bt, Obj.ofRaw, Obj.bcdShift, hkind, decodeParam, decodeDct, extractAtomic, extractCore, convertRaw,
+          uint32OfRaw, bind, pure, run_bind, run_pure, run_getS, run_modifyS, run_ite, run_raise, BaseType.isNumeric, hb0, hnl,
+          he, hb, h64, decStep, Obj.pos, Obj.k, Obj.bp]
 
 end OdxVerif.Codec
